@@ -123,7 +123,7 @@ PROPS = {
     },
     "C26": {
         "level": "proof",
-        "verus": ["execution", "collect_fields", "complete_list"],
+        "verus": ["execution", "collect_fields", "complete_list", "complete_value"],
         "explanation": "KERNELS (selection collection, list completion, ExecuteField, null propagation, error paths). Unit collect_fields: Verus proves that the executor's collect_fields computes the spec's CollectFields -- for every schema, document (fragments may even be cyclic), variables map, "
                        "object type and selection set, with visitedFragments / groupedFields threaded through as in the spec: @skip / @include, response keys (alias else name) grouped in order of first appearance, each named fragment expanded at most once and only if it exists and "
                        "DoesFragmentTypeApply, inline fragments unless their type condition does not apply. The specification function carries a fuel for fragment expansion; the contract holds for EVERY fuel >= the number of defined-but-unvisited fragments "
@@ -135,12 +135,18 @@ PROPS = {
                        "(an item error makes a nullable item null, a non-null item nulls the list if the list is nullable and propagates otherwise; every item is completed with the ITEM type at path + [index]); "
                        "non-null positions are never null (the list itself, and no item of a list of non-null); execute_field == coerce arguments, resolve, complete at the field's path, then handle the field error against the field definition's type; "
                        "path_to_vec gives the root-first path and GraphQLError::field_error stores it; every error recorded while completing a list / executing a field lies at or below that position, a resolver error exactly at it. "
+                       "Unit complete_value: complete_value itself (the local macro field_error! expanded with the body found in the source; dyn objects as opaque structs with a type_name()), proved against the contract complete_list assumes for it, "
+                       "complete_list_value entering by the clause text complete_list proves: null is a field error for a non-null type and null otherwise; a non-null type never completes to null; a list is completed as a list with the same type, path, mode and fields; "
+                       "a leaf or object for a list type is a field error; an object whose type_name() is T is executed as object type T exactly when T is an object type of the schema that is the named type / implements the named interface / is a member of the named union "
+                       "(ResolveAbstractType), and is a field error otherwise; every such field error is exactly one error recorded at the position's path; Schema::get_object returns the object type of that name; complete_leaf_value == Result Coercion at the level of serde_json's value kinds "
+                       "(an enum value is a string naming a value of that enum; Int an integer in the 32-bit range; Float / String / Boolean a value of that JSON kind; ID a string or an integer; a custom scalar anything; a composite type never), the value is returned unchanged or exactly one field error is recorded at the path. "
                        "Bodies are re-extracted from /repo on every run.",
         "assumptions": ["IndexMap / IndexSet / JsonMap lookups behave as maps / sets keyed by the name's text; DirectiveList::get returns the first directive with that name; specified_argument_by_name the argument with that name (shim contracts)",
-                        "complete_list: complete_value (not extracted) is assumed to be a function of its arguments that only adds errors at or below its path and never yields null for a non-null type -- the contract this unit proves for the list case; "
+                        "complete_list: complete_value is assumed to be a function of its arguments (named `completed`) that only adds errors at or below its path and never yields null for a non-null type -- the last two are proved for the real complete_value in unit complete_value, "
+                        "which in turn takes complete_list_value and execute_selection_set (opaque) by contract; termination of this mutual recursion is not checked; serde_json's as_str / as_i64 / is_i64 / is_f64 / is_string / is_boolean are modelled on a Value split by kind; "
                         "coerce_argument_values and the resolver call are opaque functions of their arguments; the resolver's list yields finitely many (< usize::MAX) items; await points are plain calls; "
                         "ExecutionContext.errors (&mut Vec) is held as the Vec; serde_json's From<Vec<Value>> is Value::Array; Vec::reverse / Enumerate::next have their std meaning"],
-        "not_decided": ["the rest of the main clause: ExecuteSelectionSet's loop, complete_value (leaf / object dispatch, result coercion of scalars and enums), coerce_argument_values, the root (data == null exactly when a null reaches it), "
+        "not_decided": ["the rest of the main clause: ExecuteSelectionSet's loop, coerce_argument_values, the root (data == null exactly when a null reaches it), "
                         "what an error message says, what the result is when the resolver's iterator itself fails for an item of nullable type",
                         "termination of collect_fields' recursion (exec_allows_no_decreases_clause; it follows from the counting argument of the contract but is not checked)",
                         "that the executor calls these three functions in the right places (call sites are async code, not extracted)"],
